@@ -14,9 +14,10 @@ Local Open Scope N_scope.
 Definition is_choice (t : ty) : bool := match t with TChoice _ _ _ => true | _ => false end.
 Definition is_optk (k : fkind) : bool := match k with FReq => false | _ => true end.
 (* which present extension additions are wrapped as open types by the crate: everything written
-   through write_opt, and mandatory additions except CHOICE; DEFAULT additions never *)
+   through write_opt / write_default, and mandatory additions except CHOICE (write_choice does
+   not go through with_buffer) *)
 Definition wraps (k : fkind) (ft : ty) : bool :=
-  match k with FReq => negb (is_choice ft) | FOpt => true | FDef _ => false end.
+  match k with FReq => negb (is_choice ft) | _ => true end.
 
 (* open type: the content padded to octets, as an unconstrained OCTET STRING *)
 Definition wrap_open (m : mode) (b : bits) : res bits :=
